@@ -209,7 +209,7 @@ func (c *Ctx) tagValue(v ssa.Value, depth int) (int64, bool) {
 // receive the builder are expanded in place.
 func (d *deepView) builderShape(fr *frame, b ssa.Value, depth int) string {
 	if depth > 14 || fr == nil {
-		return "…"
+		return unknownShape
 	}
 	type item struct {
 		pos  token.Pos
@@ -222,7 +222,7 @@ func (d *deepView) builderShape(fr *frame, b ssa.Value, depth int) string {
 			return
 		}
 		cond := ""
-		if depth > 0 && len(ir.DominatingConds(fr.fn, call.Block())) > 0 {
+		if depth > 0 && len(ir.DominatingConds(fr.fn, call.Block())) > 0 && !d.onlySourceConds(call, fr) {
 			cond = "?"
 		}
 		id := ir.CallID(call)
@@ -253,20 +253,30 @@ func (d *deepView) builderShape(fr *frame, b ssa.Value, depth int) string {
 			return
 		case "AddASN1":
 			tag, okT := d.c.tagValue(d.resolve(call.Call.Args[1], fr).v, 0)
-			inner := "?"
+			inner := unknownShape
 			if cf := d.closureFrameOf(call.Call.Args[2], fr); cf != nil && len(cf.fn.Params) == 1 {
 				inner = d.builderShape(cf, cf.fn.Params[0], depth+1)
 			}
-			t := "?"
+			t := unknownShape
 			if okT {
 				t = fmt.Sprintf("%#x", tag)
 			}
 			text = fmt.Sprintf("T%s{%s}", t, inner)
+			// an explicitly framed OCTET STRING is the same encoding as AddASN1OctetString
+			if okT && tag == 4 && strings.HasPrefix(inner, "BYTES(") && strings.HasSuffix(inner, ")") && !strings.Contains(inner, " ") {
+				text = "OCTET(" + strings.TrimSuffix(strings.TrimPrefix(inner, "BYTES("), ")") + ")"
+			}
 		case "AddASN1ObjectIdentifier":
 			text = "OID(" + d.describe(call.Call.Args[1], fr) + ")"
-		case "AddASN1Int64":
-			n, _ := evalConst(d.resolve(call.Call.Args[1], fr).v)
-			text = fmt.Sprintf("INT(%d)", n)
+		case "AddASN1Int64", "AddASN1Uint64", "AddASN1Enum":
+			if n, ok := evalConst(d.resolve(call.Call.Args[1], fr).v); ok {
+				text = fmt.Sprintf("INT(%d)", n)
+				if m == "AddASN1Enum" {
+					text = fmt.Sprintf("ENUM(%d)", n)
+				}
+			} else {
+				text = "INT(" + unknownShape + ")"
+			}
 		case "AddASN1NULL":
 			text = "NULL"
 		case "AddASN1BigInt":
@@ -275,12 +285,25 @@ func (d *deepView) builderShape(fr *frame, b ssa.Value, depth int) string {
 			text = "OCTET(" + d.describe(call.Call.Args[1], fr) + ")"
 		case "AddBytes":
 			text = "BYTES(" + d.describe(call.Call.Args[1], fr) + ")"
+			// the finished bytes of another builder: that builder's shape, in place
+			r := d.resolve(ir.StripConv(call.Call.Args[1]), fr)
+			rv := r.v
+			if ex, ok := rv.(*ssa.Extract); ok && ex.Index == 0 {
+				rv = ex.Tuple
+			}
+			if bc, ok := rv.(*ssa.Call); ok {
+				if bid := ir.CallID(bc); bid == cbPkg+".Builder.Bytes" || bid == cbPkg+".Builder.BytesOrPanic" {
+					if inner := d.objectShape(d.objectOf(bc.Call.Args[0], r.fr), depth+1); inner != "" {
+						text = inner
+					}
+				}
+			}
 		case "AddASN1UTCTime":
 			text = "UTCTIME"
 		case "AddASN1BitString":
 			text = "BITSTRING"
 		default:
-			text = m
+			text = m + unknownShape
 		}
 		items = append(items, item{call.Pos(), cond + text})
 	})
@@ -305,6 +328,11 @@ func (d *deepView) describe(v ssa.Value, fr *frame) string {
 			return g.Name()
 		}
 		if id := ir.FieldID(ld.X); id != "" {
+			if fa, ok := ld.X.(*ssa.FieldAddr); ok {
+				if _, local := d.resolve(fa.X, r.fr).v.(*ssa.Alloc); local {
+					return "·" // a field of a locally built value, not of an input
+				}
+			}
 			return id[strings.LastIndex(id, ".")+1:]
 		}
 	}
@@ -324,7 +352,8 @@ func checkC05(c *Ctx) {
 		return
 	}
 	fname := name(fn)
-	dv := c.deepViewOf(fn, 3)
+	dv := c.deepViewOf(fn, 6)
+	dv.throughFields = true
 	dv.stopAt = map[string]bool{pkcsPkg + ".Attributes.Marshal": true}
 	contentP := paramBytes(fn)
 	oidP := paramByNamed(fn, "encoding/asn1.ObjectIdentifier")
@@ -432,10 +461,39 @@ func checkC05(c *Ctx) {
 		}
 		arg := call.Call.Args[1]
 		s := dv.sliceDeep(arg, di.fr)
+		// the argument named by where it comes from (fields of locally built
+		// carrier structs are followed to what was stored in them)
+		pn := strings.TrimSuffix(dv.pathName(arg, di.fr, 0), "[:]")
+		certPath := "param:?"
+		if certP != nil {
+			certPath = "param:" + certP.Name()
+		}
+		if id == cbPkg+".Builder.AddBytes" && contentP != nil && pn == "param:"+contentP.Name() {
+			foundContent = true
+			continue
+		}
+		if strings.HasPrefix(pn, certPath+".") {
+			switch {
+			case id == cbPkg+".Builder.AddBytes" && pn == certPath+".RawIssuer":
+				foundIssuer = true
+			case id == cbPkg+".Builder.AddBytes" && pn == certPath+".Raw":
+				foundRaw = true
+			case id == cbPkg+".Builder.AddBytes" && pn == certPath+".RawSubject":
+				bad = append(bad, "the signer is named by the certificate's subject instead of its issuer")
+			case id == cbPkg+".Builder.AddASN1BigInt" && pn == certPath+".SerialNumber":
+				okSerial = true
+			}
+			continue
+		}
 		switch id {
 		case cbPkg + ".Builder.AddBytes":
 			if ir.HasField(s, "crypto/x509.Certificate.RawSubject") {
 				bad = append(bad, "the signer is named by the certificate's subject instead of its issuer")
+			}
+			if haveSig && s[sigVal.v] {
+				// the signature placed under an explicitly framed OCTET STRING
+				okSig = true
+				continue
 			}
 			switch {
 			case haveAttrBytes && s[attributes.v]:
@@ -443,6 +501,10 @@ func checkC05(c *Ctx) {
 				parsed := false
 				for v := range s {
 					if cl, ok := v.(*ssa.Call); ok && strings.HasPrefix(ir.CallID(cl), cbPkg+".String.ReadASN1") {
+						parsed = true
+					}
+					// encoding/asn1.Unmarshal into a RawValue, whose Bytes are the contents
+					if cl, ok := v.(*ssa.Call); ok && ir.CallID(cl) == "encoding/asn1.Unmarshal" && ir.HasField(s, "encoding/asn1.RawValue.Bytes") {
 						parsed = true
 					}
 				}
@@ -499,15 +561,15 @@ func checkC05(c *Ctx) {
 	const alg = "T0x30{OID(OIDDigestAlgorithmSHA256) NULL}"
 	want := "T0x30{OID(OIDSignedData) T0xa0{T0x30{INT(1) T0x31{" + alg + "} T0x30{OID(oid) ?T0xa0{T0x30{BYTES(content)}}} T0xa0{BYTES(Raw)} " +
 		"T0x31{T0x30{INT(1) T0x30{BYTES(RawIssuer) BIGINT(SerialNumber)} " + alg + " T0xa0{BYTES(·)} T0x30{OID(OIDEncryptionAlgorithmRSA) NULL} OCTET(·)}}}}}"
-	c.R.Check(shape == want, "L5.schema", fname, "SignedData-shape", c.Pos(fn.Pos()), "the emitter nests ContentInfo / SignedData / SignerInfo as RFC 2315 defines (tags, order, SHA-256 and RSA OIDs, version 1)",
+	c.shapeCheck(shape, shape == want, "L5.schema", fname, "SignedData-shape", c.Pos(fn.Pos()), "the emitter nests ContentInfo / SignedData / SignerInfo as RFC 2315 defines (tags, order, SHA-256 and RSA OIDs, version 1)",
 		"emitter shape is\n      "+shape+"\n   want\n      "+want)
 
 	// ---- the attribute encoder
 	if m := c.Fn("L5.schema", "pkcs7.(*Attributes).Marshal"); m != nil {
-		dm := c.deepViewOf(m, 3)
+		dm := c.deepViewOf(m, 5)
 		shape := normaliseShape(c.topBuilderShape(dm))
 		wantA := "T0x31{T0x30{OID(OIDAttributeContentType) T0x31{OID(ContentType)}} ?T0x30{OID(OIDAttributeSigningTime) T0x31{UTCTIME}} T0x30{OID(OIDAttributeMessageDigest) T0x31{OCTET(MessageDigest)}} ?T0x30{OID(Type) T0x31{BYTES(Bytes)}}}"
-		c.R.Check(shape == wantA, "L5.schema", name(m), "Attributes-shape", c.Pos(m.Pos()), "the attribute encoder emits SET{contentType, [signingTime], messageDigest, others...}",
+		c.shapeCheck(shape, shape == wantA, "L5.schema", name(m), "Attributes-shape", c.Pos(m.Pos()), "the attribute encoder emits SET{contentType, [signingTime], messageDigest, others...}",
 			"encoder shape is\n      "+shape+"\n   want\n      "+wantA)
 	}
 
@@ -556,10 +618,10 @@ func checkC05(c *Ctx) {
 		c.R.Check(len(bad) == 0, "L6.spc", name(sa), "authenticode-content", c.Pos(sa.Pos()), "the Authenticode content is SpcIndirectDataContent over the hash of the image reader, signed with the given certificate", strings.Join(bad, "; "))
 	}
 	if sp := c.Fn("L6.spc", "authenticode.CreateSpcIndirectDataContent"); sp != nil {
-		dp := c.deepViewOf(sp, 3)
+		dp := c.deepViewOf(sp, 5)
 		shape := normaliseShape(c.topBuilderShape(dp))
 		ok := strings.HasSuffix(shape, "T0x30{T0x30{OID(OIDDigestAlgorithmSHA256) NULL} OCTET(digest)}") && strings.HasPrefix(shape, "T0x30{OID(OIDSpcPEImageDataObjID) ")
-		c.R.Check(ok, "L6.spc", name(sp), "DigestInfo-shape", c.Pos(sp.Pos()), "SpcIndirectDataContent is SpcPeImageData followed by DigestInfo{sha256, NULL, digest parameter}", "shape is "+shape)
+		c.shapeCheck(shape, ok, "L6.spc", name(sp), "DigestInfo-shape", c.Pos(sp.Pos()), "SpcIndirectDataContent is SpcPeImageData followed by DigestInfo{sha256, NULL, digest parameter}", "shape is "+shape)
 	}
 	// a failing signer never yields a blob (shared with C15): error discipline in the signing cone
 	reach, _ := c.Reachable([]*ssa.Function{fn})
@@ -588,6 +650,16 @@ func (c *Ctx) topBuilderShape(dv *deepView) string {
 	if !found {
 		return ""
 	}
+	return dv.objectShape(b, 0)
+}
+
+// unknownShape marks a part of a builder shape that the evaluator does not
+// resolve (a continuation that is not a known function, a tag that is not a
+// constant, a builder method that is not modelled).
+const unknownShape = "⊥"
+
+// objectShape: everything emitted on builder object b, in view order.
+func (dv *deepView) objectShape(b dval, depth int) string {
 	var parts []string
 	for _, fr := range dv.framesInOrder() {
 		if fr.site == nil && fr != dv.root {
@@ -631,7 +703,7 @@ func (c *Ctx) topBuilderShape(dv *deepView) string {
 			}
 			_ = passes
 			seen[bv] = true
-			if sh := dv.builderShape(fr, bv, 0); sh != "" {
+			if sh := dv.builderShape(fr, bv, depth); sh != "" {
 				parts = append(parts, sh)
 			}
 		})
@@ -667,4 +739,53 @@ func normaliseShape(s string) string {
 		s = strings.ReplaceAll(s, "OCTET("+n+")", "OCTET(·)")
 	}
 	return s
+}
+
+// onlySourceConds: every condition that guards the builder call is the success
+// of obtaining the bytes it adds (the ok result / nil error of a parse whose
+// output the call's arguments derive from). Such an element is emitted
+// whenever its source exists; it is not an optional member of the structure.
+func (d *deepView) onlySourceConds(call *ssa.Call, fr *frame) bool {
+	if len(call.Call.Args) < 2 {
+		return false
+	}
+	src := map[ssa.Value]bool{}
+	for _, a := range call.Call.Args[1:] {
+		for v := range d.sliceDeep(a, fr) {
+			src[v] = true
+		}
+	}
+	conds := ir.DominatingConds(fr.fn, call.Block())
+	if len(conds) == 0 {
+		return false
+	}
+	for _, ce := range conds {
+		okCond := false
+		// ok-result observed true
+		if core, neg := ir.Peel(ce.RawCond); isBoolType(core.Type()) && ce.RawTruth != neg {
+			if c := callOf(core); c != nil && src[c] {
+				okCond = true
+			}
+		}
+		// error observed nil
+		if ev, isNil := errIsNil(ce.RawCond, ce.RawTruth); ev != nil && isNil {
+			if c := callOf(ev); c != nil && src[c] {
+				okCond = true
+			}
+		}
+		if !okCond {
+			return false
+		}
+	}
+	return true
+}
+
+// shapeCheck: a shape that is fully resolved is compared; one with unresolved
+// parts (a continuation taken from a table, a computed tag) is not decided.
+func (c *Ctx) shapeCheck(shape string, ok bool, rule, fn, construct, pos, what, detail string) {
+	if !ok && strings.Contains(shape, unknownShape) {
+		c.R.Infof(rule, fn, construct, pos, what+" -- not decided for this shape: parts of the emitted structure are not resolved ("+shape+")")
+		return
+	}
+	c.R.Check(ok, rule, fn, construct, pos, what, detail)
 }
